@@ -1,16 +1,68 @@
 (* C02 -- Parsing inverts serialization for every message shape and value. *)
-From SF Require Import Bytes Values Wire Parse Fields_proofs Roundtrip_proofs.
+From Coq Require Import List ZArith.
+From SF Require Import Bytes Values Wire Parse Fields_proofs Damage_proofs Roundtrip_proofs
+  Roundtrip_flat Roundtrip_group.
+Import ListNotations.
 
-(* Per-field part: parsing the canonical text of any populated value of any of the seven
-   types into an empty value of the same type gives the value back (in its parsed form,
-   [norm], which serializes to the same bytes). *)
-Theorem C02_value_roundtrip_partial :
+(* Values: parsing the canonical text of any populated value of any of the seven types into an
+   empty value of the same type gives the value back (in its parsed form, [norm], which serializes
+   to the same bytes). *)
+Theorem C02_value_roundtrip :
   forall o v, populated v = true -> good_value o v ->
     val_from_bytes o (val_empty v) (canon v) = Ok (norm v).
 Proof. exact value_roundtrip. Qed.
-Print Assumptions C02_value_roundtrip_partial.
+Print Assumptions C02_value_roundtrip.
 
 Theorem C02_norm_same_bytes :
   forall tag v, kv_to_bytes tag (norm v) = kv_to_bytes tag v.
 Proof. exact norm_to_bytes. Qed.
 Print Assumptions C02_norm_same_bytes.
+
+(* Whole messages without repeating groups (key-values and components, nested to any depth, in
+   header, body and trailer): Unmarshal of ToBytes into a fresh template returns the message with
+   BodyLength and CheckSum as Prepare set them, every populated value in its parsed form and every
+   unpopulated one still empty -- whatever the values, as long as tags are digit strings, distinct
+   over the whole template, and values contain no delimiter. *)
+Theorem C02_flat_message_roundtrip :
+  forall (o : oracle) (m : message) (bs mt : bytes),
+    m_bs m = VString true bs -> bs <> [] -> sohfree bs ->
+    m_mt m = VString true mt -> mt <> [] -> sohfree mt ->
+    digits (m_bs_tag m) -> digits (m_bl_tag m) -> digits (m_mt_tag m) -> digits (m_cs_tag m) ->
+    Forall flat (m_header m) -> Forall flat (m_body m) -> Forall flat (m_trailer m) ->
+    Forall (fun it => negb (is_cs_kv (m_cs_tag m) it) = true) (m_trailer m) ->
+    Forall (wf_kv o) (inner_kvs m) ->
+    NoDup (m_bs_tag m :: m_bl_tag m :: m_mt_tag m :: map fst (inner_kvs m) ++ [m_cs_tag m]) ->
+    (Z.of_nat (calc_body_length m) <= int_max)%Z ->
+    unmarshal o (template_of m) (to_bytes m) = Ok (norm_msg (fst (prepare m))).
+Proof. exact flat_message_roundtrip. Qed.
+Print Assumptions C02_flat_message_roundtrip.
+
+(* Messages whose body also holds repeating groups (any number of groups, any number of entries,
+   entries made of key-values and components; the first member of every entry populated, as FIX
+   requires of the delimiter field; empty groups allowed): every group comes back with all its
+   entries, in order, member by member.  The splitting of the group region into entries
+   (splitGroup) is part of what is proved.  Partial with respect to the property only in that a
+   group nested inside a group entry is not covered by this theorem (the correspondence check
+   exercises those shapes against the implementation). *)
+Theorem C02_group_message_roundtrip_partial :
+  forall (o : oracle) (m : message) (bs mt : bytes),
+    m_bs m = VString true bs -> bs <> [] -> sohfree bs ->
+    m_mt m = VString true mt -> mt <> [] -> sohfree mt ->
+    digits (m_bs_tag m) -> digits (m_bl_tag m) -> digits (m_mt_tag m) -> digits (m_cs_tag m) ->
+    Forall flat (m_header m) -> Forall (wf_kv o) (kvs_list (m_header m)) ->
+    Forall (item_wf o) (m_body m) ->
+    Forall flat (m_trailer m) -> Forall (wf_kv o) (kvs_list (m_trailer m)) ->
+    Forall (fun it => negb (is_cs_kv (m_cs_tag m) it) = true) (m_trailer m) ->
+    NoDup (all_tags m) ->
+    (Z.of_nat (calc_body_length m) <= int_max)%Z ->
+    unmarshal o (template_of m) (to_bytes m) = Ok (norm_msg_g (fst (prepare m))).
+Proof. exact group_message_roundtrip. Qed.
+Print Assumptions C02_group_message_roundtrip_partial.
+
+(* the premises are satisfiable: concrete messages with a component, unpopulated members, a
+   two-entry group and an empty group go through the theorems (Roundtrip_flat.flat_roundtrip_applies,
+   Roundtrip_group.group_roundtrip_applies) *)
+Theorem C02_premises_satisfiable :
+  unmarshal ex_oracle (template_of exg_msg) (to_bytes exg_msg) = Ok (norm_msg_g (fst (prepare exg_msg))).
+Proof. exact group_roundtrip_applies. Qed.
+Print Assumptions C02_premises_satisfiable.
